@@ -1,4 +1,6 @@
 import KalignModel.Props.C07Prof
 import KalignModel.Props.C07Soft
 import KalignModel.Props.C07SoftProf
+import KalignModel.Props.C07SoftGroups
+import KalignModel.Props.C07SoftGroupsEx
 /-! aggregator for tools/props/c07.py: structure + exact optimality (C07, C07Opt, C07Prof) and its transfer to binary32 (C07Soft, C07SoftProf) -/
